@@ -10,7 +10,7 @@ import (
 	"github.com/zerx-lab/wordZero/pkg/document"
 
 	"verifharness/internal/core"
-	_ "verifharness/internal/props"
+	"verifharness/internal/props"
 )
 
 func main() {
@@ -24,6 +24,12 @@ func main() {
 		for _, id := range core.IDs() {
 			fmt.Println(id)
 		}
+	case "c05child":
+		var seed uint64
+		var idx int
+		fmt.Sscan(os.Args[2], &seed)
+		fmt.Sscan(os.Args[3], &idx)
+		props.C05Child(seed, idx, os.Args[4], os.Args[5])
 	case "drive":
 		fs := flag.NewFlagSet("drive", flag.ExitOnError)
 		prop := fs.String("prop", "", "")
